@@ -44,20 +44,27 @@ Lemma textbook_and_single_never_hang K retry co s :
   exists a, ar s = Some a /\ now s < tp s + a /\ tp s + a < tcall s + dur s + MS + delay s.
 Proof.
   destruct co; cbn; intros Hk R P C Q.
-  - apply (never_hang retry armed DCAP armed_lo armed_hi armed_zero armed_some K s Hk R P C Q).
-  - apply (never_hang retry exact (dur s) (exact_lo (dur s)) (exact_hi (dur s)) eq_refl exact_some K s Hk R P ltac:(lia) Q).
+  - apply (never_hang retry armed DCAP armed_lo armed_hi armed_some K s Hk R P C Q).
+  - apply (never_hang retry exact (dur s) (exact_lo (dur s)) (exact_hi (dur s)) exact_some K s Hk R P ltac:(lia) Q).
 Qed.
 
-Lemma code_loop_never_hang retry co s :
+Lemma loop_before_fix_never_hang retry co s :
   Reach KFull retry (ctx_arm co) s -> pcs s <> Idle -> ctx_cap co (dur s) -> Quiescent KFull retry (ctx_arm co) s ->
   pcs s = Parked /\ tok s = false /\
   exists a, ar s = Some a /\ now s < tp s + a /\ tp s + a < tcall s + dur s + dur s + MS + delay s /\
             (nsp s = 0%nat -> tp s + a < tcall s + dur s + MS + delay s).
 Proof.
   destruct co; cbn; intros R P C Q.
-  - apply (never_hang_full retry armed DCAP armed_lo armed_hi armed_zero armed_some s R P C Q).
-  - apply (never_hang_full retry exact (dur s) (exact_lo (dur s)) (exact_hi (dur s)) eq_refl exact_some s R P ltac:(lia) Q).
+  - apply (never_hang_full retry armed DCAP armed_lo armed_hi armed_some s R P C Q).
+  - apply (never_hang_full retry exact (dur s) (exact_lo (dur s)) (exact_hi (dur s)) exact_some s R P ltac:(lia) Q).
 Qed.
+
+(* the code of recv_timeout / Cqueue::poll (since fix 3916da2) *)
+Lemma code_loop_never_hang retry co s :
+  Reach KRem retry (ctx_arm co) s -> pcs s <> Idle -> ctx_cap co (dur s) -> Quiescent KRem retry (ctx_arm co) s ->
+  pcs s = Parked /\ tok s = false /\
+  exists a, ar s = Some a /\ now s < tp s + a /\ tp s + a < tcall s + dur s + MS + delay s.
+Proof. apply (textbook_and_single_never_hang KRem retry co s (or_introl eq_refl)). Qed.
 
 (* ---- the rounding bound, end to end ---- *)
 
@@ -66,9 +73,13 @@ Lemma textbook_and_single_prompt K retry co s t y :
   t - y < tcall s + dur s + MS.
 Proof.
   destruct co; cbn; intros Hk R C E.
-  - apply (returned_timeout_bound retry armed DCAP armed_lo armed_hi armed_zero armed_some K s t y Hk R C E).
-  - apply (returned_timeout_bound retry exact (dur s) (exact_lo (dur s)) (exact_hi (dur s)) eq_refl exact_some K s t y Hk R ltac:(lia) E).
+  - apply (returned_timeout_bound retry armed DCAP armed_lo armed_hi armed_some K s t y Hk R C E).
+  - apply (returned_timeout_bound retry exact (dur s) (exact_lo (dur s)) (exact_hi (dur s)) exact_some K s t y Hk R ltac:(lia) E).
 Qed.
+
+Lemma code_loop_prompt retry co s t y :
+  Reach KRem retry (ctx_arm co) s -> ctx_cap co (dur s) -> res s = Some (RTimeout, t, y) -> t - y < tcall s + dur s + MS.
+Proof. apply (textbook_and_single_prompt KRem retry co s t y (or_introl eq_refl)). Qed.
 
 (* schedule hypothesis spelled out: nothing delayed the call (y = 0: no time passed while the caller was not parked,
    and it left every park the moment its timer was due) *)
@@ -81,7 +92,7 @@ Proof.
   - pose proof (textbook_and_single_prompt KSingle retry co s t 0 (or_intror eq_refl) R C E). lia.
 Qed.
 
-Lemma textbook_undelayed_window retry co s t :
+Lemma code_loop_undelayed_window retry co s t :
   Reach KRem retry (ctx_arm co) s -> ctx_cap co (dur s) -> res s = Some (RTimeout, t, 0) ->
   tcall s + dur s <= t < tcall s + dur s + MS.
 Proof.
@@ -90,27 +101,27 @@ Proof.
   - pose proof (textbook_and_single_prompt KRem retry co s t 0 (or_introl eq_refl) R C E). lia.
 Qed.
 
-Lemma code_loop_prompt_partial retry co s :
+Lemma loop_before_fix_prompt_partial retry co s :
   Reach KFull retry (ctx_arm co) s -> pcs s <> Idle -> ctx_cap co (dur s) ->
   (nsp s = 0%nat -> now s - delay s + slack s < tcall s + dur s + MS) /\
   now s - delay s + slack s < tcall s + dur s + dur s + MS.
 Proof.
   destruct co; cbn; intros R P C.
-  - apply (bound_full retry armed DCAP armed_lo armed_hi armed_zero armed_some s R P C).
-  - apply (bound_full retry exact (dur s) (exact_lo (dur s)) (exact_hi (dur s)) eq_refl exact_some s R P ltac:(lia)).
+  - apply (bound_full retry armed DCAP armed_lo armed_hi armed_some s R P C).
+  - apply (bound_full retry exact (dur s) (exact_lo (dur s)) (exact_hi (dur s)) exact_some s R P ltac:(lia)).
 Qed.
 
-Lemma code_loop_returned_partial retry co s t y :
+Lemma loop_before_fix_returned_partial retry co s t y :
   Reach KFull retry (ctx_arm co) s -> ctx_cap co (dur s) -> res s = Some (RTimeout, t, y) ->
   t - y < tcall s + dur s + dur s + MS.
 Proof.
   destruct co; cbn; intros R C E.
-  - apply (returned_timeout_bound_full retry armed DCAP armed_lo armed_hi armed_zero armed_some s t y R C E).
-  - apply (returned_timeout_bound_full retry exact (dur s) (exact_lo (dur s)) (exact_hi (dur s)) eq_refl exact_some s t y R ltac:(lia) E).
+  - apply (returned_timeout_bound_full retry armed DCAP armed_lo armed_hi armed_some s t y R C E).
+  - apply (returned_timeout_bound_full retry exact (dur s) (exact_lo (dur s)) (exact_hi (dur s)) exact_some s t y R ltac:(lia) E).
 Qed.
 
-(* the full statement for the code is refuted: undelayed (y = 0), in range, and a whole 1.5 ms late *)
-Lemma code_loop_prompt_refuted retry :
+(* the full statement for the loops as they were before fix 3916da2 is refuted: undelayed (y = 0), in range, and a whole 1.5 ms late *)
+Lemma loop_before_fix_prompt_refuted retry :
   ~ (forall s t y, Reach KFull retry (ctx_arm true) s -> ctx_cap true (dur s) -> res s = Some (RTimeout, t, y) ->
                    t - y < tcall s + dur s + MS).
 Proof.
